@@ -29,8 +29,9 @@ def close(a, b, n=4, scale=0.0):
 
 
 def aclose(a, b, n=4):
-    """angles: pi - phi cancels, so the error is relative to the scale of 2 pi (or 360 degrees)"""
-    return close(a, b, n, scale=max(2 * math.pi, 0 if a is None else abs(a)))
+    """angles: pi - phi cancels, so the error is absolute on the scale of a full turn; the value may be
+    in degrees (the conversion carries the absolute error of the radian value times 180/pi)"""
+    return close(a, b, n, scale=max(360.0, 0 if a is None else abs(a)))
 
 
 def mk_point(g, spec):
